@@ -222,6 +222,16 @@ func GenOp(s *SchemaJ, r *rand.Rand, o GenOpts) *Op {
 	}
 	g := &opGen{s: s, r: r, o: o, op: &Op{Kind: o.Kind, Frags: map[string]*Frag{}}}
 	root := s.Roots[o.Kind]
+	if o.Kind == "subscription" {
+		// exactly one root field
+		var f *Sel
+		for f == nil {
+			f = g.field(root, o.Depth+1)
+		}
+		f.Skip, f.Incl, f.SkipSrc, f.InclSrc, f.QDirs = false, true, "", "", nil
+		g.op.Sels = []*Sel{f}
+		return g.op
+	}
 	g.op.Sels = g.selSet(root, o.Depth, true)
 	if len(g.op.Sels) == 0 || !hasField(g.op.Sels) {
 		g.op.Sels = append(g.op.Sels, &Sel{K: "field", Alias: "__typename", Name: "__typename", Incl: true})
